@@ -261,8 +261,14 @@ func (w *Workspace) UpdateFile(path, content string) {
 	if w.rootJournalPath == "" || w.index == nil {
 		return
 	}
+	adopted := false
 	if !w.isWorkspaceFileLocked(path) {
-		return
+		// A file that did not exist when the members' include directives were last
+		// expanded may be matched by one of their glob patterns now.
+		if !w.adoptByGlobLocked(path) {
+			return
+		}
+		adopted = true
 	}
 
 	oldIndex := w.index.FileIndex(path)
@@ -277,10 +283,51 @@ func (w *Workspace) UpdateFile(path, content string) {
 	w.updateResolvedLocked(path, journal)
 	w.clearCachesLocked()
 
-	if !sameStringSlice(oldIncludes, fileIndex.Includes) {
+	if adopted || !sameStringSlice(oldIncludes, fileIndex.Includes) {
 		w.refreshIncludeTreeLocked()
 	}
 	w.reorderFilesLocked()
+}
+
+// adoptByGlobLocked expands the glob includes of the member files again and enters the
+// new edges; it reports whether path is included by a member now.
+func (w *Workspace) adoptByGlobLocked(path string) bool {
+	if w.resolved == nil {
+		return false
+	}
+	members := map[string]*ast.Journal{w.rootJournalPath: w.resolved.Primary}
+	for p, j := range w.resolved.Files {
+		members[p] = j
+	}
+	found := false
+	for member, journal := range members {
+		fi := w.index.FileIndex(member)
+		if journal == nil || fi == nil {
+			continue
+		}
+		hasGlob := false
+		for _, inc := range journal.Includes {
+			if include.IsGlobPattern(inc.Path) {
+				hasGlob = true
+				break
+			}
+		}
+		if !hasGlob {
+			continue
+		}
+		includes := resolveIncludePaths(member, journal.Includes)
+		if sameStringSlice(fi.Includes, includes) {
+			continue
+		}
+		w.updateIncludeEdgesLocked(member, fi.Includes, includes)
+		fi.Includes = includes
+		for _, inc := range includes {
+			if inc == path {
+				found = true
+			}
+		}
+	}
+	return found
 }
 
 // reorderFilesLocked lists the member files in the order the include loader visits
